@@ -189,6 +189,13 @@ func (k *DNSKEY) ToDS(h uint8) *DS {
 		return nil
 	}
 	owner = owner[:off]
+	// A letter may also be written as a \DDD escape, which CanonicalName leaves
+	// alone: fold the octets too. Length octets (at most 63) are below 'A'.
+	for i, c := range owner {
+		if 'A' <= c && c <= 'Z' {
+			owner[i] = c + ('a' - 'A')
+		}
+	}
 	// RFC4034:
 	// digest = digest_algorithm( DNSKEY owner name | DNSKEY RDATA);
 	// "|" denotes concatenation
